@@ -159,7 +159,7 @@ def generate(seed, tier="quick"):
             if r < 0.12:
                 t["xfail"] = True
             elif r < 0.2:
-                t["xfail"] = xrng.choice(["false", "false-kw"])  # xfail(False) / xfail(condition=False): not an expected failure, judged like every other test
+                t["xfail"] = xrng.choice(["false", "false-kw", "false-str"])  # xfail(False) / xfail(condition=False) / xfail('<false expression>'): not an expected failure, judged like every other test
         orng = sub(seed, "order")
         orng.shuffle(f["tests"])
     return {"program": prog, "config": draw_config(sub(seed, "config")), "cold": sub(seed, "cold").random() < 0.04 and not nested and not use_async, "pytester": nested, "asyncio": use_async}
